@@ -7,9 +7,11 @@ LEVEL = 'proof'
 
 
 def run(rep):
+    enginep.unify_deductive(rep)      # facts are matched by unification: the unify family against su (C02's contracts)
     enginep.engine_deductive(rep, ['engine.YP.query', 'engine.YP.register_function', 'engine.YP._set_builtin_predicates', 'engine.YP.load_script_from_string',
                                    'engine.YP.match_dynamic', 'engine.YP._match_all_clauses', 'engine.YP.assert_fact', 'engine.YP._clauses',
                                    'engine.YP._update_predicate'], heap_lemmas=False)
+    enginep.file_loader_obligation(rep)
     keys = fw.smt.run_many(key_obligations(), timeout=20)
     fw.add_smt(rep, keys, 'spec.key-naming', 'string')
     q = rep.tier == 'quick'
